@@ -277,7 +277,7 @@ def c05_rho(EoN, sim, rng, stats):
 def judge(run, pid, lines, metas, per, label):
     idx = [i for i, l in enumerate(lines) if l is not None]
     outs = C.run_model([lines[i] for i in idx], COMP)
-    judged = rejected = 0
+    judged = rejected = 0; shown_n = {}
     for i, o in zip(idx, outs):
         rp, _, shown = metas[i]
         if not o.startswith('OK'):
@@ -290,6 +290,8 @@ def judge(run, pid, lines, metas, per, label):
         if v['chk'] != '1':
             rejected += 1
             chk = rp['checker']
+            shown_n[(rp['sim'], chk)] = shown_n.get((rp['sim'], chk), 0) + 1
+            if shown_n[(rp['sim'], chk)] > 3: continue                      # same key: three replays are enough
             run.violation('%s/%s/%s' % (pid, rp['sim'], chk), 'the extracted checker %s (proved sound and accepted on every model run, Props/C05s.v) rejects the implementation\'s output: request %s, first rows %r' % (
                 chk, {k: rp[k] for k in ('i0', 'form', 'rho', 'tmin', 'full') if k in rp}, shown), dict(rp, line=lines[i]))
     for i, (rp, err, _) in enumerate(metas):
@@ -325,7 +327,7 @@ def merge_ties(rows):
 def first_diff(a, b):
     for i, (x, y) in enumerate(zip(a, b)):
         if x != y: return 'call %d: %r vs %r' % (i, x, y)
-    return 'length %d vs %d (first extra call: %r)' % (len(a), len(b), (a + b)[min(len(a), len(b))])
+    return 'length %d vs %d (first extra call: %r)' % (len(a), len(b), (a if len(a) > len(b) else b)[min(len(a), len(b))]) if len(a) != len(b) else 'equal'
 
 
 def c18_cases(EoN, sim, rng, n, stats):
